@@ -31,6 +31,12 @@
 //       The Lean side (`TsVerif.C02.assumedBits`) states the widths the Nat-valued model relies on (every
 //       quantity that grows with the document: >= 32 bits) and judges the measurement.
 //         -> "widths child_count=<max> visible_child_count=<max> named_child_count=<max> ..."
+//   tsv-cunit_c02 cwidths
+//       the same for the index fields of the tree cursor and of the two child iterators (C06): the largest value each
+//       of TreeCursorEntry / CursorChildIterator / NodeChildIterator .child_index, .structural_child_index,
+//       .descendant_index holds (from the size of the real field), and an all-ones TreeCursorEntry read back
+//       through ts_tree_cursor_current_descendant_index.
+//         -> "cwidths entry_child_index=<max> ... current_descendant_index=<max>"
 #include TSV_REPO_LIB_C
 #include "shim.c"
 #include <stdio.h>
@@ -216,8 +222,27 @@ static int widths(void) {
   return 0;
 }
 
+#define MAXOF(T, f) ((unsigned long long)(sizeof(((T *)0)->f) >= 8 ? ~0ULL : ((1ULL << (8 * sizeof(((T *)0)->f))) - 1)))
+static int cwidths(void) {
+  TreeCursor cursor;
+  memset(&cursor, 0, sizeof cursor);
+  TreeCursorEntry entry;
+  memset(&entry, 0xFF, sizeof entry);
+  array_push(&cursor.stack, entry);
+  unsigned long long cdi = ts_tree_cursor_current_descendant_index((const TSTreeCursor *)&cursor);
+  array_delete(&cursor.stack);
+  printf("cwidths entry_child_index=%llu entry_structural_child_index=%llu entry_descendant_index=%llu "
+         "citer_child_index=%llu citer_structural_child_index=%llu citer_descendant_index=%llu "
+         "niter_child_index=%llu niter_structural_child_index=%llu current_descendant_index=%llu\n",
+         MAXOF(TreeCursorEntry, child_index), MAXOF(TreeCursorEntry, structural_child_index), MAXOF(TreeCursorEntry, descendant_index),
+         MAXOF(CursorChildIterator, child_index), MAXOF(CursorChildIterator, structural_child_index), MAXOF(CursorChildIterator, descendant_index),
+         MAXOF(NodeChildIterator, child_index), MAXOF(NodeChildIterator, structural_child_index), cdi);
+  return 0;
+}
+
 int main(int argc, char **argv) {
   if (argc == 2 && !strcmp(argv[1], "widths")) return widths();
+  if (argc == 2 && !strcmp(argv[1], "cwidths")) return cwidths();
   if (argc == 4 && !strcmp(argv[1], "lang")) return dump_language(argv[2], argv[3]);
   if (argc == 7 && !strcmp(argv[1], "balance"))
     return balance_cases(argv[2], argv[3], argv[4], (unsigned)strtoul(argv[5], NULL, 10), (unsigned)strtoul(argv[6], NULL, 10));
